@@ -542,7 +542,8 @@ def run(ctx):
         "transitivity_triples_with_both_premises_true": tot["triples"],
         "parented_sub_object_vs_free_standing_copy_by_kind": subp,
         "exponent_multiplier_mutations_by_ulp_step": dict(sorted(ulpst.items())),
-        "units_object_held_by_a_variable_by_ownership": dict(sorted(ownst.items())),
+        "units_object_held_by_a_variable_by_ownership": dict(sorted((k, v) for k, v in ownst.items() if not k.startswith("import_"))),
+        "import_sources_by_resolved_state": dict(sorted((k, v) for k, v in ownst.items() if k.startswith("import_"))),
         "oracle_instances_inside_the_one_ulp_tolerance_no_claim": ntol,
         "oracle_failures_attributed_to_known_findings": kfc}
     ctx.cov["traces_validated_against_impl"] = tot["evaluations"]
